@@ -204,7 +204,12 @@ func (c *Conn) waitCloseHandshake() error {
 	if err != nil {
 		return err
 	}
-	defer c.readMu.unlock()
+	defer c.readUnlock()
+
+	if c.peerClosed {
+		// Another reader already received the peer's close frame.
+		return c.peerCloseErr
+	}
 
 	for i := int64(0); i < c.msgReader.payloadLength; i++ {
 		_, err := c.br.ReadByte()
